@@ -249,7 +249,7 @@ var (
 	}
 	vbAllEnumHandlers = []vbEnumHandler{
 		handleBreakingEnumValueNoDelete, handleBreakingEnumValueNoDeleteUnlessNameReserved,
-		handleBreakingEnumValueNoDeleteUnlessNumberReserved, handleBreakingReservedEnumNoDelete,
+		handleBreakingEnumValueNoDeleteUnlessNumberReserved, handleBreakingReservedEnumNoDelete, handleBreakingEnumSameType,
 	}
 	vbAllMethodHandlers = []vbMethodHandler{
 		handleBreakingRPCSameRequestType, handleBreakingRPCSameResponseType, handleBreakingRPCSameClientStreaming,
@@ -305,7 +305,7 @@ func vbRunAll(prev, cur *vbSchema) (int, bool) {
 }
 
 // VerifLemma_C04A_Identity: a schema with arbitrary attribute values compared with an attribute-equal copy of itself:
-// none of the 56 handlers reports anything or fails.
+// none of the 57 handlers reports anything or fails.
 func VerifLemma_C04A_Identity() {
 	a := vbNondetSchemaAttrs(verifNondetChoice(vbFocusGroups))
 	prev, cur := vbBuildSchema(a, false), vbBuildSchema(a, false)
